@@ -46,6 +46,7 @@ type Frame struct {
 
 type loopState struct {
 	entered bool
+	arrivals int
 	mem     map[*Region]Cell // memory at loop head after havoc
 }
 
